@@ -132,6 +132,8 @@ def random_program(rng, n):
     body = []
     for r in range(10):
         body.append(B.load_const(r, rng.choice(B.B64) if rng.chance(1, 2) else rng.next()))
+    for k in range(1, 9):
+        body.append(B.stx('dw', 10, k, -8 * k))      # every stack slot used below is written first
     k = 0
     while k < n:
         t = rng.below(10)
